@@ -70,10 +70,10 @@ Definition valid_packet : bytes :=
 
 Lemma valid_packet_ok :
   nopanic_suffixes false valid_packet /\
-  wp_run false true go_unquote valid_packet =
+  forall g, wp_run g true go_unquote valid_packet =
     Ok ([x61; x3d; x62], [ {| le_ts := 5; le_msg := [x6d; x31]; le_flds := [x01; x66; x01; x76; x01; x67; x01; x68] |};
                            {| le_ts := 7; le_msg := []; le_flds := [x01; x66; x01; x76] |} ]).
-Proof. split; [apply nps_by_compute; vm_compute; reflexivity|vm_compute; reflexivity]. Qed.
+Proof. split; [apply nps_by_compute; vm_compute; reflexivity|intros g; destruct g; vm_compute; reflexivity]. Qed.
 
 (* ---- reading what was stored ---- *)
 Section Reads.
